@@ -80,8 +80,9 @@ Mismatch(out, ex, d0, n, h, lo2, hi2) ==
 ---------------------------------------------------------------------------
 ApplyParse(m, e, obj, step) ==
   LET f1 == ExcClass(TRUE, e, "parse.exc", step)
-      f2 == IF f1 = Ok /\ obj.implAst # obj.phi THEN F("parse.ast", step, "phi", "implAst") ELSE Ok IN
-  R([m EXCEPT !.phase = "parsed", !.phi = obj.phi, !.inst = obj.phi], f1 \o f2, 0)
+      phi0 == Desugar(obj.phi)
+      f2 == IF f1 = Ok /\ obj.implAst # phi0 THEN F("parse.ast", step, phi0, obj.implAst) ELSE Ok IN
+  R([m EXCEPT !.phase = "parsed", !.phi = phi0, !.inst = phi0], f1 \o f2, 0)
 
 ApplyPastify(m, e, step) ==
   IF Pastifiable(m.phi) THEN R([m EXCEPT !.phase = "pastified", !.inst = Pastify(m.phi, {})],
@@ -140,6 +141,11 @@ ApplyReset(m, e, step) ==
       fv == OnlineValueFail(m, step) IN
   R([m EXCEPT !.phase = "online", !.fed = [v \in m.cfg.vars |-> <<>>], !.emitted = <<>>, !.nupd = 0], fv \o f0, 0)
 
+\* C19: a *discrete-time* object evaluated inside a dense-time case; its result (checked by C01's own trace
+\* specification) is only recorded here, as the samples <<2 * time-stamp, value>>, for the relation "sampled_eq"
+ApplyDtEvaluate(m, e, step) ==
+  R([m EXCEPT !.phase = "dt", !.emitted = e.ret, !.fed = e.w], ExcClass(TRUE, e, "dt_evaluate.exc", step), 0)
+
 Apply(c, e, step) ==
   LET m == ms[e.o] obj == c.objs[e.o] IN
   IF m.dead THEN R(m, Ok, 0) ELSE
@@ -148,6 +154,7 @@ Apply(c, e, step) ==
     [] e.a = "evaluate" -> ApplyEvaluate(m, e, step)
     [] e.a = "update"   -> ApplyUpdate(m, e, step)
     [] e.a = "reset"    -> ApplyReset(m, e, step)
+    [] e.a = "dt_evaluate" -> ApplyDtEvaluate(m, e, step)
 
 \* relations between objects at the end of a case
 Covered(out) == IF out = <<>> THEN {} ELSE out[1][1]..out[Len(out)][1]
@@ -157,6 +164,10 @@ RelFail(c, r) ==
          LET a == ms[r.x].emitted b == ms[r.y].emitted
              both == Covered(a) \cap Covered(b) IN
          IF \A t2 \in both : StepAt(a, t2) = StepAt(b, t2) THEN Ok ELSE F("rel.same_fn", 0, a, b)
+    [] r.rel = "sampled_eq" ->     \* C19: dense result x sampled at the discrete instants = discrete result y, while k + h < N
+         LET a == ms[r.x].emitted b == ms[r.y].emitted N == Len(b) IN
+         IF \A k \in 1..N : (k + r.h <= N) => StepAt(a, b[k][1]) = b[k][2] THEN Ok
+         ELSE F("rel.sampled_eq", 0, b, a)
     [] r.rel = "settled_ct" ->     \* C16 dense: y extends x; values at t with t + h < end of x agree
          LET a == ms[r.x].emitted b == ms[r.y].emitted
              d0 == D0(ms[r.x]) d1 == D1(ms[r.x]) IN
